@@ -1680,7 +1680,8 @@ def run_empty_candidates(repo, chk):
             chk.instance("D-empty", "%s:%d reads `%s`%s" % (f.qual, n.lineno, norm_text(n), " in a truthiness context (%s)" % truthy if truthy else ""))
             if truthy:
                 chk.violation("D-empty", f.key, "truthy-read:%s" % norm_text(n), "`%s` is used as %s: an empty candidate list (slot switched off) is read as a missing entry, and the slot name itself becomes a particle of the chains" % (norm_text(n), truthy), file=DEC, line=n.lineno)
-    if n_reads < 3:
+    if n_reads < 1:
+        # (the writer is decided by interpretation; of the readers at least the one that expands a slot must exist)
         raise AnalysisError("D-empty: only %d reads of particle_map found in %s" % (n_reads, DEC))
 
 
@@ -1785,7 +1786,13 @@ def run_normalised_reads(repo, chk):
         if isinstance(n, ast.Assign) and len(n.targets) == 1 and isinstance(n.targets[0], ast.Name) and n.targets[0].id == "prefix_map" and isinstance(n.value, ast.Dict):
             vals = {const_value(v) for v in n.value.values if isinstance(const_value(v), str)}
         if isinstance(n, ast.Assign) and len(n.targets) == 1 and isinstance(n.targets[0], ast.Subscript) and isinstance(n.targets[0].value, ast.Name) and isinstance(n.value, ast.Subscript) and isinstance(n.value.value, ast.Name) and isinstance(n.targets[0].slice, ast.Name):
-            if any(isinstance(x, ast.Name) and x.id == "prefix_map" for st in walk_local(fn.node) if isinstance(st, ast.Assign) and st.targets and isinstance(st.targets[0], ast.Name) and st.targets[0].id == n.targets[0].slice.id for x in ast.walk(st.value)):
+            # the rewritten key is built from prefix_map - directly (prefix_map[p] + ..) or through the loop variables
+            # of `for p, target in prefix_map.items()`
+            pm_names = {"prefix_map"}
+            for lp in walk_local(fn.node):
+                if isinstance(lp, ast.For) and any(isinstance(x, ast.Name) and x.id == "prefix_map" for x in ast.walk(lp.iter)):
+                    pm_names |= {x.id for x in ast.walk(lp.target) if isinstance(x, ast.Name)}
+            if any(isinstance(x, ast.Name) and x.id in pm_names for st in walk_local(fn.node) if isinstance(st, ast.Assign) and st.targets and isinstance(st.targets[0], ast.Name) and st.targets[0].id == n.targets[0].slice.id for x in ast.walk(st.value)):
                 target, source, rewrite_line = n.targets[0].value.id, n.value.value.id, n.lineno
     if not vals or target is None:
         raise AnalysisError("add_particle_constraints: the alias rewrite `<table>[prefix_map[..] + ..] = <entry>[name]` was not found")
